@@ -26,6 +26,22 @@ def selection_mapper(conn_name='connection', extra=None):
     return m
 
 
+def check_recorded(ctx, rule):
+    """Every arriving message is appended to the controller's record exactly once, before any filtering (also used by C11)."""
+    repo = ctx.repo
+    f_new = repo.func('Controller.connection_got_new_message')
+    npaths = paths_of(repo, f_new)
+    is_rec = lambda e: e.kind == 'call' and e.ftext == 'self.all_messages.append'
+    for p in npaths:
+        rec = [i for i, e in enumerate(p.events) if is_rec(e)]
+        oth = [i for i, e in enumerate(p.events) if e.kind in ('call', 'decide') and not is_rec(e)]
+        ctx.check(len(rec) == 1 and (not oth or rec[0] < oth[0]) and p.events[rec[0]].argtext(0) == 'message' and not p.events[rec[0]].loops,
+                  rule, 'controller:record-first', f_new.loc(),
+                  'every message is appended to all_messages exactly once, before any filtering or selection test',
+                  'path %s does not record the message first/once: messages of some connections never reach the all-connections record' % p.describe()[:160])
+    ctx.floor(rule, len(npaths), 4, 'paths of connection_got_new_message')
+
+
 def run(ctx):
     repo = ctx.repo
     cg = repo.callgraph()
@@ -42,14 +58,7 @@ def run(ctx):
     npaths = paths_of(repo, f_new)
     is_rec = lambda e: e.kind == 'call' and e.ftext == 'self.all_messages.append'
     is_show = lambda e: e.kind == 'call' and e.ftext == 'self._show_message'
-    for p in npaths:
-        rec = [i for i, e in enumerate(p.events) if is_rec(e)]
-        oth = [i for i, e in enumerate(p.events) if e.kind == 'call' and not is_rec(e)]
-        ctx.check(len(rec) == 1 and (not oth or rec[0] < oth[0]) and p.events[rec[0]].argtext(0) == 'message' and not p.events[rec[0]].loops,
-                  'C06.1', 'controller:record-first', f_new.loc(),
-                  'every message is appended to all_messages exactly once, before any filtering',
-                  'path %s does not record the message first/once' % p.describe()[:160])
-    ctx.floor('C06.1', len(npaths), 4, 'paths of connection_got_new_message')
+    check_recorded(ctx, 'C06.1')
     check_writers(ctx, 'C06.1', CTRL, 'all_messages', [('Controller.__init__', lambda w: w.fresh and isinstance(w.stmt.value, ast.List)),
                                                         ('Controller.connection_got_new_message', lambda w: w.kind == 'mutate' and w.via == 'append')], floor=2)
     check_writers(ctx, 'C06.1', CI, 'message_list', [('ConnectionImpl.__init__', lambda w: w.fresh and isinstance(w.stmt.value, ast.List)),
